@@ -5,5 +5,5 @@ CONSTANTS
   Stride = 7
   Pairs = 40
   Randoms = 60
-  NBombs = 15
+  NBombs = 16
   RefStride = 1
